@@ -494,6 +494,55 @@ theorem rack_delivered (ρ : TopicMap → TopicMap) (hρ : ∀ l, (ρ l).Perm l)
     (fun t => ⟨rack_cover ms ps σ₁ σ₂ h t (h1 t) (h2 t), rack_balanced ms ps σ₁ σ₂ h t (h1 t) (h2 t)⟩)
     (fun t => rack_only_subscribers ms ps σ₁ σ₂ h t (h1 t) (h2 t)) t ht
 
+/-- the leader asks the cluster for exactly the topics somebody subscribes to (`extractTopics`), so for every subscribed
+topic the balancer is given exactly the cluster's partitions of that topic (`ReadsTopics` = what `readPartitions` returns) -/
+theorem glue_partitions (ms : List Member) (cluster got : List Part) (hread : ReadsTopics cluster (extractTopics ms) got)
+    (t : Nat) (hs : subscribers ms t ≠ []) :
+    partsOf t got = partsOf t cluster ∧ ∀ z, ledIn got t z = ledIn cluster t z := by
+  obtain ⟨m, hm⟩ := List.exists_mem_of_ne_nil _ hs
+  have hm' := List.mem_filter.mp hm
+  exact hread t ((mem_extractTopics ms t).mpr ⟨m, hm'.1, by simpa using hm'.2⟩)
+
+example (cluster : List Part) (ms : List Member) : ReadsTopics cluster (extractTopics ms) (readPartitions cluster (extractTopics ms)) :=
+  readPartitions_reads cluster _
+
+/-- one whole rebalance round seen from the cluster: the leader decodes the members' metadata (`glue_members`), reads the
+partitions of the subscribed topics, applies the balancer, encodes; every member decodes its own bytes.  C14 holds of
+what the members receive *with respect to the cluster's partition listing*. -/
+theorem round_good (ρ : TopicMap → TopicMap) (hρ : ∀ l, (ρ l).Perm l) (ms : List Member) (cluster got : List Part)
+    (hread : ReadsTopics cluster (extractTopics ms) got) (a : Asg) (ids ts : List Nat) (t : Nat)
+    (hd : GoodAt ms got (delivered ρ a ids ts) t) : GoodAt ms cluster (delivered ρ a ids ts) t := by
+  refine ⟨fun hs => ?_, hd.2⟩
+  have := hd.1 hs
+  unfold CoverAt at this ⊢
+  rw [← (glue_partitions ms cluster got hread t hs).1]
+  exact this
+
+theorem range_round (ρ : TopicMap → TopicMap) (hρ : ∀ l, (ρ l).Perm l) (ms : List Member) (cluster got : List Part)
+    (h : WellFormed ms) (hread : ReadsTopics cluster (extractTopics ms) got)
+    (ids ts : List Nat) (hts : ts.Nodup) (hr : ∀ p ∈ got, InInt32 p.id) (hids : ∀ m ∈ ms, m.id ∈ ids) (t : Nat) (ht : t ∈ ts) :
+    GoodAt ms cluster (delivered ρ (rangeAssign ms got) ids ts) t ∧
+      ∀ id, OnlySubscribersAt ms (delivered ρ (rangeAssign ms got) ids ts) t id :=
+  have hd := range_delivered ρ hρ ms got h ids ts hts hr hids t ht
+  ⟨round_good ρ hρ ms cluster got hread _ ids ts t hd.1, hd.2⟩
+
+theorem rr_round (ρ : TopicMap → TopicMap) (hρ : ∀ l, (ρ l).Perm l) (ms : List Member) (cluster got : List Part)
+    (h : WellFormed ms) (hread : ReadsTopics cluster (extractTopics ms) got)
+    (ids ts : List Nat) (hts : ts.Nodup) (hr : ∀ p ∈ got, InInt32 p.id) (hids : ∀ m ∈ ms, m.id ∈ ids) (t : Nat) (ht : t ∈ ts) :
+    GoodAt ms cluster (delivered ρ (rrAssign ms got) ids ts) t ∧
+      ∀ id, OnlySubscribersAt ms (delivered ρ (rrAssign ms got) ids ts) t id :=
+  have hd := rr_delivered ρ hρ ms got h ids ts hts hr hids t ht
+  ⟨round_good ρ hρ ms cluster got hread _ ids ts t hd.1, hd.2⟩
+
+theorem rack_round (ρ : TopicMap → TopicMap) (hρ : ∀ l, (ρ l).Perm l) (ms : List Member) (cluster got : List Part)
+    (σ₁ σ₂ : Nat → List Nat) (h : WellFormed ms) (hread : ReadsTopics cluster (extractTopics ms) got)
+    (h1 : ∀ t, IterOrder got t (σ₁ t)) (h2 : ∀ t, IterOrder got t (σ₂ t))
+    (ids ts : List Nat) (hts : ts.Nodup) (hr : ∀ p ∈ got, InInt32 p.id) (hids : ∀ m ∈ ms, m.id ∈ ids) (t : Nat) (ht : t ∈ ts) :
+    GoodAt ms cluster (delivered ρ (rackAsg ms got σ₁ σ₂) ids ts) t ∧
+      ∀ id, OnlySubscribersAt ms (delivered ρ (rackAsg ms got σ₁ σ₂) ids ts) t id :=
+  have hd := rack_delivered ρ hρ ms got σ₁ σ₂ h h1 h2 ids ts hts hr hids t ht
+  ⟨round_good ρ hρ ms cluster got hread _ ids ts t hd.1, hd.2⟩
+
 end Glue
 
 end KV.C14
